@@ -18,8 +18,11 @@ the data file's length (`rebuild_size_file`: elements are read until one does no
 protocol version of the file: if that fails, `Error::TxHashSetErr("failed to open kernel PMMR")` and
 `Chain::init` fails.
 
-Granularity: one entry per block, as for the kernel files of `Model/Crash.lean`; `some id` = the
-true entry / data of block `id`, `none` = zero bytes of the same extent. -/
+Granularity: one entry per kernel; `kc b` = number of kernels of block `b` (a parameter: the block
+table of `Model/Crash.lean` does not carry kernels; the driver passes "coinbase kernel + one kernel
+if the block spends", which is how the crash harness builds blocks; the theorems hold for every
+position). `some id` = the true entry / data of a kernel of block `id`, `none` = zero bytes of the
+same extent. -/
 namespace GV.Crash
 
 structure KFiles where
@@ -58,27 +61,36 @@ def kReadable (hashLen : Nat) (k : KFiles) : Bool :=
 
 def kOfIds (ids : List Nat) : KFiles := { size := ids.map some, data := ids.map some }
 
+/-- the kernels of a path, block by block -/
+def kernelsOf (kc : BlkInfo → Nat) (P : List BlkInfo) : List (Option Nat) :=
+  P.flatMap fun b => List.replicate (kc b) (some b.id)
+
+/-- kernel MMR position (number of kernels) of the tip of `P` -/
+def kpos (kc : BlkInfo → Nat) (P : List BlkInfo) : Nat := (kernelsOf kc P).length
+
+def kOfPath (kc : BlkInfo → Nat) (P : List BlkInfo) : KFiles := { size := kernelsOf kc P, data := kernelsOf kc P }
+
 /-- the kernel steps of an acceptance (`Model/Crash.lean` has no size-file steps: the size file is
 flushed inside the data file's flush, before the data file's own truncation) -/
 inductive KStep
   | sizeTrunc | sizeApp | dataTrunc | dataApp
 deriving Repr, DecidableEq, Inhabited
 
-def applyKStep (t : Target) (k : KFiles) : KStep → KFiles
-  | .sizeTrunc => sizeFlush k t.forkLen
-  | .sizeApp => { k with size := k.size ++ ((t.newPath.drop t.forkLen).map fun b => some b.id) }
-  | .dataTrunc => dataFlush k t.forkLen
-  | .dataApp => { k with data := k.data ++ ((t.newPath.drop t.forkLen).map fun b => some b.id) }
+def applyKStep (kc : BlkInfo → Nat) (t : Target) (k : KFiles) : KStep → KFiles
+  | .sizeTrunc => sizeFlush k (kpos kc t.forkPath)
+  | .sizeApp => { k with size := k.size ++ kernelsOf kc (t.newPath.drop t.forkLen) }
+  | .dataTrunc => dataFlush k (kpos kc t.forkPath)
+  | .dataApp => { k with data := k.data ++ kernelsOf kc (t.newPath.drop t.forkLen) }
 
 /-- the kernel files through the durable writes of a recovery: each `kerDataTrunc` write of
 `recoverS` is the data file's flush, preceded by the size file's flush -/
-def kRun (k : KFiles) : List RIns → KFiles
+def kRun (kc : BlkInfo → Nat) (k : KFiles) : List RIns → KFiles
   | [] => k
-  | i :: rest => kRun (if i.step == .kerDataTrunc then kSync k i.path.length else k) rest
+  | i :: rest => kRun kc (if i.step == .kerDataTrunc then kSync k (kpos kc i.path) else k) rest
 
 /-- a restart that is killed after `j` of its durable writes: the files are opened, then written -/
-def kRestartKilled (bc : Nat → Bool) (tbl : List BlkInfo) (d : Durable) (k : KFiles) (j : Nat) : KFiles :=
-  kRun (kOpen k) ((recoverS bc tbl d).1.take j)
+def kRestartKilled (kc : BlkInfo → Nat) (bc : Nat → Bool) (tbl : List BlkInfo) (d : Durable) (k : KFiles) (j : Nat) : KFiles :=
+  kRun kc (kOpen k) ((recoverS bc tbl d).1.take j)
 
 /-- does the NEXT start get past `TxHashSet::open`? -/
 def nextStartOpens (d : Durable) (k : KFiles) : Bool := kReadable d.kerHash.length (kOpen k)
@@ -94,16 +106,16 @@ def kstepOfLabel (l : String) : Option KStep :=
 
 /-- the kernel files through the real labels of a restart, walked along the model's writes: the
 rewind position of a kernel sync is the path length of the model's pending `kerDataTrunc` write -/
-def walkK : List String → List RIns → KFiles → KFiles
+def walkK (kc : BlkInfo → Nat) : List String → List RIns → KFiles → KFiles
   | [], _, k => k
   | l :: ls, ins, k =>
-    let pending := (ins.find? (·.step == .kerDataTrunc)).map (·.path.length)
+    let pending := (ins.find? (·.step == .kerDataTrunc)).map (fun i => kpos kc i.path)
     if l.startsWith "aof.flush:after-truncate[kernel/pmmr_size.bin]" then
-      walkK ls ins (match pending with | some n => sizeFlush k n | none => k)
+      walkK kc ls ins (match pending with | some n => sizeFlush k n | none => k)
     else if l.startsWith "aof.flush:after-truncate[kernel/pmmr_data.bin]" then
       match pending with
-      | some n => walkK ls ((ins.dropWhile (·.step != .kerDataTrunc)).drop 1) (dataFlush k n)
-      | none => walkK ls ins k
-    else walkK ls ins k
+      | some n => walkK kc ls ((ins.dropWhile (·.step != .kerDataTrunc)).drop 1) (dataFlush k n)
+      | none => walkK kc ls ins k
+    else walkK kc ls ins k
 
 end GV.Crash
